@@ -23,6 +23,24 @@ THEOREMS = [
     "Cv.lexUnrank_lexRank",
     "Cv.lexRank_lt_factorial",
     "Cv.lexRank_injective",
+    # bit-mask engine, word level (CvModel/Bitmask.lean mirrors bfs_bitmask.py; refinement to bfsBitset)
+    "Cv.Bitmask.bitCount64_spec",
+    "Cv.Bitmask.bitCount64Numba_spec",
+    "Cv.Bitmask.bitCount_spec",
+    "Cv.Bitmask.decode_encodePerm",
+    "Cv.Bitmask.prefixPerm_spec",
+    "Cv.Bitmask.prefixMap2_prefixMap1_spec",
+    "Cv.Bitmask.rank_roundtrip",
+    "Cv.Bitmask.rank_injective_in_chunk",
+    "Cv.Bitmask.chunkOf_eq_iff",
+    "Cv.Bitmask.chunk_keys_distinct",
+    "Cv.Bitmask.chunk_count",
+    "Cv.Bitmask.bfsBitmask_spec",
+    "Cv.Bitmask.bfsBitmask_growth",
+    "Cv.Bitmask.bfsBitmask_raises",
+    "Cv.Bitmask.bfsBitmask_returns_iff",
+    "Cv.Bitmask.bfsBitmask_n16",
+    "Cv.Bitmask.bfsBitmask_asserts",
 ]
 
 
@@ -134,14 +152,21 @@ def run_bitmask(ck, case):
         return
     if list(sizes) != ls:
         ck.violation("C11/bitmask/growth", "bit-mask engine does not produce the true growth function", dict(rep, observed=list(sizes)))
+        return
+    n_pts = len(gd.central)
+    if case.get("model", ck.thorough or (n_pts == 9 and maxd is not None) or (n_pts == 10 and maxd is not None and maxd <= 5)):
+        # the word-level model of the engine (proved equal to the abstract bit-set BFS on this domain)
+        m = drv.ask(f"bm ; BFS {len(gd.central)} {bm.R} {depth if maxd is not None else 1000000} | {' '.join(map(str, gd.central))} | " + " | ".join(" ".join(map(str, g_)) for g_ in gd.gens))
+        if m != "OK " + " ".join(map(str, sizes)):
+            ck.correspondence_break("bfsBitmask: model and implementation differ", dict(rep, model=m[:200], observed=list(sizes)))
 
 
 def gen_bitmask_case(rng):
     """Random generator sets on n = 9..11 points inside the bit-mask engine's documented domain, with a depth limit
     that keeps the explored ball small.  Pieces: cyclic shifts, adjacent transpositions (biased to the trailing
     positions >= 8), cycles inside the trailing block, prefix reversals, random permutations; closed under inverses
-    or not.  A set is rejected when some expansion batch would fall into a single chunk (the documented domain:
-    'generators move the trailing positions')."""
+    or not.  A set is rejected when it is outside the engine's exact domain ('generators move the trailing positions',
+    made precise by theorem Cv.Bitmask.bfsBitmask_returns_iff)."""
     for _ in range(200):
         n = rng.choice([9, 10, 10, 11, 11])
         ident = list(range(n))
@@ -179,7 +204,7 @@ def gen_bitmask_case(rng):
         # explore with plain tuples until the ball holds ~20000 states; check the single-chunk condition on the way
         seen = {tuple(central)}
         layer = [tuple(central)]
-        depth, ok = 0, True
+        depth = 0
         while layer and len(seen) < 20000 and depth < 12:
             by_chunk = {}
             for st in layer:
@@ -187,18 +212,36 @@ def gen_bitmask_case(rng):
             nxt = []
             for sts in by_chunk.values():
                 nb = {tuple(st[g[i]] for i in range(n)) for st in sts for g in gens}
-                if len(nb) > 1 and len({x[8:] for x in nb}) == 1:
-                    ok = False
                 for x in nb:
                     if x not in seen:
                         seen.add(x)
                         nxt.append(x)
             layer = nxt
             depth += 1
+        # the engine's exact domain (theorem Cv.Bitmask.bfsBitmask_returns_iff): one generator, or two generators that
+        # differ at a trailing position i >= R
+        ok = len(gens) == 1 or any(g[i] != h[i] for g in gens for h in gens for i in range(8, n))
         if not ok or depth < 2:
             continue
         return {"gd": graphs.GDef("perm", gens, list(central), tag="bitmask-random").to_json(), "max_diameter": None if not layer else depth, "engine": "bitmask"}
     raise RuntimeError("no bitmask case")
+
+
+def check_bitmask_model(ck):
+    """Kernel-level and whole-engine comparison of CvModel/Bitmask.lean with the real helpers (see cv/bitmask_corr.py)."""
+    from cv import bitmask_corr
+
+    drv = ck.driver()
+    qs = bitmask_corr.kernel_queries(ck.rng, ck.thorough) + bitmask_corr.engine_queries(ck.rng, ck.thorough)
+    for q, exp, label, binding in qs:
+        got = drv.ask("bm ; " + q)
+        ck.case(["bm", q[:200], len(q)], True)
+        ck.count("bitmask-model:" + label.split(" (")[0].split(",")[0][:40])
+        if got.strip() != exp.strip():
+            if binding:
+                ck.correspondence_break("bit-mask engine: model and implementation differ on " + label, {"query": q[:2000], "impl": exp[:500], "model": got[:500]})
+            else:
+                ck.count("drift:bit-mask engine raises a different exception outside its domain (non-binding)")
 
 
 def check_rank_tables(ck):
@@ -281,7 +324,7 @@ def main():
         c = body["case"]
         {"numpy": run_numpy, "interactive": run_interactive, "walk": run_walk, "bitmask": run_bitmask}.get(c.get("engine"), run_interactive)(ck, c)
         ck.finish(rule="replay of one recorded case")
-    ck.lean_obligations(['CvProps.C11i', 'CvProps.C11e'], THEOREMS)
+    ck.lean_obligations(['CvProps.C11i', 'CvProps.C11e', 'CvProps.C11b'], THEOREMS)
     for case in json.load(open(os.path.join(VERIF, "harness", "corpus", "C11.json"))):
         {"numpy": run_numpy, "interactive": run_interactive, "walk": run_walk, "bitmask": run_bitmask}[case["engine"]](ck, case)
         ck.count("corpus")
@@ -308,6 +351,7 @@ def main():
         run_walk(ck, {"gd": gd.to_json(), "cfg": graphs.gen_cfg(ck.rng, gd)})
         ck.count("walk:deep-directed")
     check_rank_tables(ck)
+    ck.guard(check_bitmask_model, ck)
     # bit-mask engine: n = 9 (quick), n = 9 and 10 (thorough); inverse-closed and not; with and without depth limit
     n = 9
     lrx = [[(i + 1) % n for i in range(n)], [(i - 1) % n for i in range(n)], [1, 0] + list(range(2, n))]
